@@ -202,3 +202,28 @@ def gen_config(rng, all_atom=None, tier="quick"):
         "fragment_masses": masses, "target": float(target), "start_fragment": start,
         "descriptors": all_descs,
     }
+
+
+def vary_tables(rng, cfg):
+    """Same fragments, other reactivities / terminals / target: a second user of the same chemistry."""
+    import copy
+    new = copy.deepcopy(cfg)
+    descs = cfg["descriptors"]
+    poly = {}
+    for d in descs:
+        poly[d] = 0.0 if rng.random() < 0.3 else rng.choice([0.05, 0.2, 0.5, 1.0, 2.0])
+    if poly and all(v == 0 for v in poly.values()):
+        poly[rng.choice(sorted(poly))] = 1.0
+    new["polymer_reactivities"] = poly if rng.random() < 0.8 else {}
+    frag = {}
+    if rng.random() < 0.6:
+        for d in descs:
+            if rng.random() < 0.7:
+                row = {c: (0.0 if rng.random() < 0.35 else rng.choice([0.1, 0.5, 1.0])) for c in complements(d, descs)}
+                if row and all(v == 0 for v in row.values()):
+                    row[rng.choice(sorted(row))] = 1.0
+                frag[d] = row
+    new["fragment_reactivities"] = frag
+    new["terminal_bonds"] = [d for d in descs if rng.random() < 0.15]
+    new["target"] = float(cfg["target"]) * rng.choice([0.5, 1.0, 1.0, 2.0])
+    return new
